@@ -31,8 +31,12 @@ def make_grid(g, radius=1.0):
             longitude_offset=g.get('offset', 0.0), radius=radius,
             latitude_spacing=g.get('spacing', 'gauss'))
   if g.get('impl', 'real') == 'fast':
-    kw['spherical_harmonics_impl'] = functools.partial(
-        sh.FastSphericalHarmonics, base_shape_multiple=g.get('mult', 4), transform_precision='highest')
+    opts = dict(base_shape_multiple=g.get('mult', 4), transform_precision='highest')
+    if g.get('stacked') is not None:
+      opts['stacked_fourier_transforms'] = g['stacked']
+    if g.get('reverse') is not None:
+      opts['reverse_einsum_arg_order'] = g['reverse']
+    kw['spherical_harmonics_impl'] = functools.partial(sh.FastSphericalHarmonics, **opts)
   return sh.Grid(**kw)
 
 
@@ -142,9 +146,12 @@ class Recorder:
   def run(self, state):
     """explicit_terms and implicit_terms of `state`, everything recorded; returns the record."""
     self.rec, self.counts = {}, {}
-    with self.diagnostics():
-      ex = self.eq.explicit_terms(state)
-    im = self.eq.implicit_terms(state)
+    try:
+      with self.diagnostics():
+        ex = self.eq.explicit_terms(state)
+      im = self.eq.implicit_terms(state)
+    finally:
+      self.uninstall()
     for tag, t in (('explicit', ex), ('implicit', im)):
       d = t.asdict() if hasattr(t, 'asdict') else dict(t)
       for f, v in d.items():
